@@ -183,6 +183,21 @@ pub mod fixed_arr {
     }
 }
 
+/// Read the human readable (hex) form of a scalar or a compressed point.
+///
+/// The curve crates are not handed the string: `blstrs_plus` aborts on a
+/// digit that is not hexadecimal and on strings of the wrong length
+pub fn hex_repr<'de, D, R>(d: D) -> Result<R, D::Error>
+where
+    D: serde::Deserializer<'de>,
+    R: Default + AsMut<[u8]>,
+{
+    let hex_str = <String as serde::Deserialize>::deserialize(d)?;
+    let mut repr = R::default();
+    hex::decode_to_slice(hex_str.as_bytes(), repr.as_mut()).map_err(serde::de::Error::custom)?;
+    Ok(repr)
+}
+
 pub trait IsZero {
     fn is_zero(&self) -> Choice;
 }
